@@ -64,7 +64,7 @@ MAXN = """    let (t, _exact, _c) = orx_parallel::verif::api::runner_new(nt, cs,
     if !nt_auto { assert!(t <= ntv, "more threads than Max(n) allows"); }
     assert!(t <= ap || !has_len || true);
     let (sp, _nc) = orx_parallel::verif::api::spawn_decisions(nt, cs, task, len, k, hm);
-    if k + 1 >= t { assert!(!sp, "the spawn loop would create more than max-1 workers before the final one"); }
+    if k >= t - 1 { assert!(!sp, "the spawn loop would create more than max-1 workers before the final one"); }
     if !nt_auto && ntv == 1 { assert!(!sp && t == 1); }
 """
 
